@@ -256,6 +256,19 @@ class Conv:
                 return [["unsupported_stmt", k, ln]]
             raise Unsupported("stmt kind %s" % k)
         # expression statement
+        m = n
+        while m.get("kind") in ("ParenExpr", "ExprWithCleanups") or \
+                (m.get("kind") == "ImplicitCastExpr" and m.get("castKind") == "ToVoid"):
+            m = [x for x in m["inner"] if x.get("kind")][0]
+        if m.get("kind") == "ConditionalOperator":
+            # `c ? a : b;` whose value is discarded is `if (c) a; else b;`
+            c, a, b = m["inner"]
+            arms = [self.stmt(a), self.stmt(b)]
+            for arm in arms:
+                for x in arm:
+                    if x[-1] is None:
+                        x[-1] = ln
+            return [["if", self.expr(c), arms[0], arms[1], ln]]
         return [["expr", self.expr(n), ln]]
 
     def _collect_cases(self, c, cases):
